@@ -66,9 +66,57 @@ class Repartition(Expr):
         ):
             new_partitions = self.operand("new_partitions")
             if isinstance(new_partitions, Callable):
-                return new_partitions(self.frame.npartitions)
+                new_partitions = new_partitions(self.frame.npartitions)
+            if type(self) is Repartition and new_partitions > self.frame.npartitions:
+                # Interpolated divisions are de-duplicated, so there can be
+                # fewer partitions than requested
+                divisions = self._interpolated_divisions(new_partitions)
+                if divisions is not None:
+                    return len(divisions) - 1
             return new_partitions
         return super().npartitions
+
+    def _interpolated_divisions(self, npartitions):
+        """Divisions used to increase the partition count of a frame with known
+        numeric or datetime divisions (``None`` if they can't be interpolated)"""
+        df = self.frame
+        original_divisions = divisions = pd.Series(df.divisions).drop_duplicates()
+        if not (
+            df.known_divisions
+            and (
+                is_datetime64_any_dtype(divisions.dtype)
+                or is_numeric_dtype(divisions.dtype)
+            )
+        ):
+            return None
+        if is_datetime64_any_dtype(divisions.dtype):
+            divisions = divisions.values.astype("float64")
+
+        if is_series_like(divisions):
+            divisions = divisions.values
+
+        n = len(divisions)
+        divisions = np.interp(
+            x=np.linspace(0, n, npartitions + 1),
+            xp=np.linspace(0, n, n),
+            fp=divisions,
+        )
+        if is_datetime64_any_dtype(original_divisions.dtype):
+            divisions = methods.tolist(
+                pd.Series(divisions).astype(original_divisions.dtype)
+            )
+        elif np.issubdtype(original_divisions.dtype, np.integer):
+            divisions = divisions.astype(original_divisions.dtype)
+
+        if isinstance(divisions, np.ndarray):
+            divisions = divisions.tolist()
+
+        divisions = list(divisions)
+        divisions[0] = df.divisions[0]
+        divisions[-1] = df.divisions[-1]
+
+        # Ensure the computed divisions are unique
+        return list(unique(divisions[:-1])) + [divisions[-1]]
 
     @functools.cached_property
     def unique_partition_mapping_columns_from_shuffle(self):
@@ -92,44 +140,9 @@ class Repartition(Expr):
                 # Remove if partitions are equal
                 return self.frame
             else:
-                original_divisions = divisions = pd.Series(
-                    self.frame.divisions
-                ).drop_duplicates()
-                if self.frame.known_divisions and (
-                    is_datetime64_any_dtype(divisions.dtype)
-                    or is_numeric_dtype(divisions.dtype)
-                ):
-                    npartitions = self.new_partitions
-                    df = self.frame
-                    if is_datetime64_any_dtype(divisions.dtype):
-                        divisions = divisions.values.astype("float64")
-
-                    if is_series_like(divisions):
-                        divisions = divisions.values
-
-                    n = len(divisions)
-                    divisions = np.interp(
-                        x=np.linspace(0, n, npartitions + 1),
-                        xp=np.linspace(0, n, n),
-                        fp=divisions,
-                    )
-                    if is_datetime64_any_dtype(original_divisions.dtype):
-                        divisions = methods.tolist(
-                            pd.Series(divisions).astype(original_divisions.dtype)
-                        )
-                    elif np.issubdtype(original_divisions.dtype, np.integer):
-                        divisions = divisions.astype(original_divisions.dtype)
-
-                    if isinstance(divisions, np.ndarray):
-                        divisions = divisions.tolist()
-
-                    divisions = list(divisions)
-                    divisions[0] = df.divisions[0]
-                    divisions[-1] = df.divisions[-1]
-
-                    # Ensure the computed divisions are unique
-                    divisions = list(unique(divisions[:-1])) + [divisions[-1]]
-                    return RepartitionDivisions(df, divisions, self.force)
+                divisions = self._interpolated_divisions(self.new_partitions)
+                if divisions is not None:
+                    return RepartitionDivisions(self.frame, divisions, self.force)
                 else:
                     return RepartitionToMore(self.frame, self.operand("new_partitions"))
         elif self.new_divisions:
